@@ -1343,6 +1343,8 @@ class SourceSpectrum(BaseSourceSpectrum):
             bkeys['expr'] = (self.meta['expr'], 'synphot expression')
 
         if 'ext_header' in kwargs:
+            # Add the keywords to a copy, not to the caller's dictionary
+            kwargs['ext_header'] = kwargs['ext_header'].copy()
             kwargs['ext_header'].update(bkeys)
         else:
             kwargs['ext_header'] = bkeys
@@ -1931,6 +1933,8 @@ class SpectralElement(BaseUnitlessSpectrum):
             bkeys['expr'] = (self.meta['expr'], 'synphot expression')
 
         if 'ext_header' in kwargs:
+            # Add the keywords to a copy, not to the caller's dictionary
+            kwargs['ext_header'] = kwargs['ext_header'].copy()
             kwargs['ext_header'].update(bkeys)
         else:
             kwargs['ext_header'] = bkeys
